@@ -250,7 +250,7 @@ def run_full(unit):
             return obligations(m, flags)
         zv = {n: z3.Real(n) for n in names}
         k = 0
-        for pr in core.explore(fn, max_paths=4000):
+        for pr in core.explore(fn, max_paths=60000):
             log.path(pr)
             k += 1
             if pr.aborted:
